@@ -366,6 +366,21 @@ func genC03(g *gen) {
 			g.emit(fmt.Sprintf("new %s %s C", dt, c.sh), "apiTranspose $0 "+c.p, "dump $1", "safeT $0 "+c.p, "transpose $2", "dump $2", "dump $0")
 		}
 	}
+	// the copy of a lazily transposed tensor is a lazily transposed tensor: undone, transposed again (also two-dimensional
+	// vectors), moved physically - source and copy dumped after every step
+	for _, dt := range []string{"i16", "f64", "str"} {
+		for _, c := range []struct{ sh, p string }{{"2,3", "1,0"}, {"2,3,2", "2,0,1"}, {"2,3,2", "0,2,1"}, {"1,4", "1,0"}, {"4,1", "1,0"}, {"2,1,3", "1,2,0"}} {
+			for _, cp := range []string{"clone $0", "shallow $0"} {
+				for _, after := range [][]string{{"UT $1"}, {"T $1 -"}, {"T $1 " + c.p}, {"transpose $1"}, {"UT $1", "T $1 " + c.p, "UT $1"}, {"transpose $1", "UT $1"}} {
+					steps := []string{fmt.Sprintf("new %s %s C", dt, c.sh), "T $0 " + c.p, cp, "dump $1"}
+					for _, a := range after {
+						steps = append(steps, a, "dump $1", "dump $0")
+					}
+					g.emit(steps...)
+				}
+			}
+		}
+	}
 	for si, sh := range shs {
 		ps := perms(len(sh))
 		for pi, p := range ps {
